@@ -179,3 +179,15 @@ Definition scan_case_ok (c : Z * list nat * list Z * list xval * list xval) : bo
            else let fn := if f =? 0 then Nancumsum else Ffill in
                 match sizes with [] => scan_seq fn codes vals | _ => scan_chunked fn sizes codes vals end in
   forallb2 xval_eqb m impl.
+
+(* ---- _restore_dim_order cases (K2) ---- *)
+From Flox Require Import XrDims.
+Fixpoint strs_eqb (a b : list string) : bool :=
+  match a, b with
+  | [], [] => true
+  | x :: a', y :: b' => String.eqb x y && strs_eqb a' b'
+  | _, _ => false
+  end.
+Definition restore_case_ok (c : list string * string * option string * bool * list string * list string) : bool :=
+  let '(objdims, gname, gdim, nr, resultdims, impl) := c in
+  strs_eqb (restore_dim_order objdims gname gdim nr resultdims) impl.
